@@ -180,6 +180,9 @@ def generator_text_workload(ctx):
         w._rv_rec = rec
         setattr(gs, name, w)
         contracts._rebind(orig, w)
+    if not all(hasattr(gs, nm) for nm in ('create_pref_lists_original', 'create_pref_lists_from_other_lists')):
+        ctx.cnt('generator_text_workload_absent_list_functions_not_found')
+        return
     for nm in ('create_pref_lists_original', 'create_pref_lists_from_other_lists'):
         wrap(nm)
         f = getattr(gs, nm)
@@ -302,8 +305,10 @@ def floors(m, tier):
         out.append('only %d reader executions' % c.get('reader_executions', 0))
     if c.get('contract_evals_contract_errors', 0):
         out.append('%d internal contract errors' % c['contract_evals_contract_errors'])
-    if c.get('generated_lines_judged', 0) < (3000 if tier == 'quick' else 50000):
-        out.append('only %d generated lines judged' % c.get('generated_lines_judged', 0))
-    if m['cover'].get('generated_empty_list', 0) < 20:
-        out.append('only %d generated empty lists' % m['cover'].get('generated_empty_list', 0))
+    if not c.get('generator_text_workload_absent_list_functions_not_found'):
+        # auxiliary workload (taps on two private list-producing functions); absent => reported, not inconclusive
+        if c.get('generated_lines_judged', 0) < (3000 if tier == 'quick' else 50000):
+            out.append('only %d generated lines judged' % c.get('generated_lines_judged', 0))
+        if m['cover'].get('generated_empty_list', 0) < 20:
+            out.append('only %d generated empty lists' % m['cover'].get('generated_empty_list', 0))
     return out
